@@ -201,7 +201,7 @@ theorem mistyped_number_rejected (props : List (Str × List Str)) (f v : Str)
 
 /-- holds since fix 399e7529; before it every unknown word was silently `false` -/
 theorem mistyped_bool_rejected (props : List (Str × List Str)) (f v : Str) (h : lookupProp props f = some [v])
-    (hw : ∀ w ∈ ["1", "true", "yes", "ok", "0", "false", "no"], lower (trimAscii v) ≠ w.toList) :
+    (hw : ∀ w ∈ ["1", "true", "yes", "ok", "0", "false", "no"], lower (trimWs v) ≠ w.toList) :
     fieldOk props f .bool = false := fieldOk_bad_bool props f v h hw
 
 theorem mistyped_array_rejected (props : List (Str × List Str)) (f : Str) (vs : List Str)
